@@ -1,6 +1,16 @@
 # Human-written level texts per claimed property (used by tools/gen_manifest.py).
 HOOK_COMMITS = []
 META = {
+    "C15": {
+        "text": "Bounded model checking of the real Load path (cache heads -> ipfs-log fetcher -> Join with size trimming -> index) with the limit a full 64-bit symbolic integer: the solver partitions the limit's range at every comparison in the real code and shows, per class, no panic, no error and exactly min(n,total) most recent entries in log order.",
+        "design_ref": "DESIGN.md §2 C15",
+        "note": "Trusted: gosym, z3, block-store/cache stubs. Bounds: logs of T<=3 quick / 5 thorough entries, one or two heads.",
+    },
+    "C17": {
+        "text": "Bounded model checking over thread schedules of the real write path: the interpreter owns scheduling, every preemption point at a visible operation is a decision of the path (preemption bound P), payloads are symbolic; each schedule is executed on the real AddOperation/Append/Load code and the oracle (distinct entries, all listed, all recovered after restart) is checked on it.",
+        "design_ref": "DESIGN.md §2 C17",
+        "note": "Trusted: gosym's thread model (sequentially consistent at visible-operation granularity), stub cache/block store. Bounds: W=2,P=1 quick / W=3,P=2 thorough. The deciding step is exhaustive enumeration of schedules within the bound, each closed by solver verdicts over the symbolic payloads.",
+    },
     "C20": {
         "text": "Bounded model checking of the real adapter code: peersDiff over all membership-snapshot sequences with symbolic peer ids, the self-filter and ordering of WatchMessages/monitorTopic over scripted messages with symbolic bodies, channel-name symmetry/injectivity over symbolic ids, and the varint frame round trip plus arbitrary raw frames.",
         "design_ref": "DESIGN.md §2 C20",
